@@ -144,7 +144,13 @@ class Gen:
             else:
                 defaults.append([fn, dv])
         if c["kind"] == "typeddict":
-            fields = [f for f in fields if f[0] in required] + [f for f in fields if f[0] not in required]
+            # two ways to mix required and optional keys (NotRequired is invisible under `from __future__ import annotations`):
+            # a total base + total=False subclass, or a total=False base + TOTAL subclass (then __total__ is True although keys are optional)
+            c["td_style"] = r.choice(["req_base", "opt_base"])
+            if c["td_style"] == "req_base":
+                fields = [f for f in fields if f[0] in required] + [f for f in fields if f[0] not in required]
+            else:
+                fields = [f for f in fields if f[0] not in required] + [f for f in fields if f[0] in required]
         elif "kw_only" not in c.get("opts", []):
             dn = {k for k, _ in defaults}
             fields = [f for f in fields if f[0] not in dn] + [f for f in fields if f[0] in dn]
